@@ -212,6 +212,24 @@ def part_b(ctx):
             ctx.disagree(doc, str(impl)[:300], str(mo)[:300], "generate: outcome differs from the model")
 
 
+def canon_float(x):
+    """Bit-level view of a float array that is the same for an f4 array and for its exact widening to
+    f8: finite values must be f4-representable (else the value itself is kept, as a float), NaNs keep
+    their payload (missing and fill stay distinct) up to the quiet bit, which a widening sets."""
+    x = np.asarray(x)
+    nan = np.isnan(x)
+    if x.dtype.itemsize == 4:
+        bits = x.view(np.int32).astype(np.int64)
+    else:
+        with np.errstate(all="ignore"):
+            y = x.astype(np.float32)
+            exact = np.array_equal(y.astype(x.dtype)[~nan], x[~nan])
+        if not exact:
+            return np.where(nan, -1.0, x)
+        bits = y.view(np.int32).astype(np.int64)
+    return np.where(nan, bits & ~0x00400000, bits)
+
+
 def store_arrays(path):
     import zarr
 
@@ -221,7 +239,7 @@ def store_arrays(path):
         a = root[k]
         x = a[:]
         if x.dtype.kind == "f":
-            x = x.view(np.int32)
+            x = canon_float(x)
         out[k] = (x.tolist(), str(a.dtype), tuple(a.chunks), a.compressor.get_config() if a.compressor else None, tuple(a.shape))
     return out
 
@@ -301,6 +319,9 @@ def part_c(ctx):
                     if f["dtype"] in ("i1", "i2", "i4") and r.random() < 0.5:
                         f["dtype"] = r.choice([t for t in ("i2", "i4", "i8") if int(t[1]) > int(f["dtype"][1])])
                         edits[f["name"]] = ("dtype", f["dtype"])
+                    elif f["dtype"] == "f4" and r.random() < 0.5:
+                        f["dtype"] = "f8"      # a wider float: every f4 value, and the two sentinels, widen exactly
+                        edits[f["name"]] = ("dtype", "f8")
                     elif r.random() < 0.3 and f["name"] != "call_genotype":
                         f["compressor"] = dict(id="blosc", cname=r.choice(["lz4", "zlib", "zstd"]), clevel=r.randint(1, 9), shuffle=r.choice([0, 1, 2]), blocksize=0)
                         edits[f["name"]] = ("compressor", f["compressor"])
